@@ -71,11 +71,7 @@ def p5_operator_table(chk):
     chk.static("expr.precedence_chain", ok, "^ = unary > not/abs/floor/ceil/trunc > * / div mod > + - > round > comparisons > and > or")
     chk.static("expr.unary_operators", {expr.UMinus, expr.UPlus, "not", "abs", "floor", "ceil", "trunc"} <= expr.unary_ops
                and not ({"+", "-", "*", "/", "and", "or", "=", "<"} & expr.unary_ops), str(sorted(map(str, expr.unary_ops))))
-    import ast
-    from pyvc import source
-    src = ast.unparse(source.module("mwlib/parser/expr.py").find("Expr._process_expression_elements"))
-    chk.static("expr.pop_condition_is_left_associative", "while not is_unary and operator_stack and (prec <= precedence[operator_stack[-1]])" in src
-               or "while not is_unary and operator_stack and prec <= precedence[operator_stack[-1]]" in src, "prec <= precedence[top]")
+    # (left association of the pop condition is the contract p7_precedence_pop, not a text match)
 
 
 # ----------------------------------------------------------------------------- bounded: #expr trees
@@ -315,6 +311,7 @@ def run(chk):
     p1_numeric_compare(chk)
     p5_operator_table(chk)
     p6_closing_parenthesis(chk)
+    p7_precedence_pop(chk)
     bounded(chk)
     chk.assumptions += [
         "int(s)/float(s) are uninterpreted partial functions with: an int literal is also a float literal of the same value",
@@ -411,3 +408,154 @@ def p6_closing_parenthesis(chk):
             I.oblige("raises_ExprError_only", out.raised("ExprError"))
             I.oblige("raises_only_without_an_open_parenthesis", Forall(["index"], lambda j: z3.Implies(z3.And(j >= 0, j < n0), z3.Select(ops, j) != LP)))
     chk.prove("expr.Expr._handle_closing_parenthesis", harness, ex, targets=[fn], replay=replay_expr)
+
+
+# ----------------------------------------------------------------------------- P7: the precedence pop loop (binary / prefix operators) of the #expr evaluator
+def p7_precedence_pop(chk):
+    """_process_expression_elements for an operator token: a prefix operator is pushed without popping; a binary
+    operator of precedence p first outputs exactly the maximal top segment of stacked operators whose precedence
+    is >= p (left association, '(' stops it), top first, then is pushed.  Operator stack abstract as in P6; the
+    precedence table and the set of prefix operators are the real ones (read from the imported module; the two
+    marker classes UMinus / UPlus are represented by reserved strings)."""
+    from mwlib.parser import expr as real
+    from pyvc import source
+    from pyvc.interp import LoopSpec, Forall
+    from pyvc.schema import Typing
+    from pyvc.values import SInt, SStr, ClassRef, Model, PObj
+    Z, S = z3.IntSort(), z3.StringSort()
+    AS = z3.ArraySort(Z, S)
+
+    def nm(k):
+        return k if isinstance(k, str) else f"<{k.__name__}>"
+    PREC = {nm(k): v for k, v in real.precedence.items()}
+    UNARY = {nm(k) for k in real.unary_ops}
+    ex = Explorer()
+    ex.typing = Typing({"ops": ("index",), "out": ("index",)}, {})
+    ex.global_overrides[(EXPRPY, "precedence")] = lambda I: dict(PREC)
+    ex.global_overrides[(EXPRPY, "unary_ops")] = lambda I: set(UNARY)
+    ex.global_overrides[(EXPRPY, "UMinus")] = "<UMinus>"
+    ex.global_overrides[(EXPRPY, "UPlus")] = "<UPlus>"
+
+    def prec_of(s):
+        t = None
+        for k, v in PREC.items():
+            t = z3.IntVal(v) if t is None else z3.If(s == z3.StringVal(k), z3.IntVal(v), t)
+        return t
+
+    def member(s):
+        return z3.Or(*[s == z3.StringVal(k) for k in PREC])
+
+    def g(I):
+        return I.ghost
+    ex.truthy_hooks["opstack"] = lambda I, st: I.decide(g(I)["n"] > 0)
+    ex.len_hooks["opstack"] = lambda I, st: SInt(g(I)["n"])
+
+    def st_pop(I, st):
+        G = g(I)
+        if not I.decide(G["n"] > 0):
+            I.throw("IndexError", "pop from empty list")
+        G["n"] = G["n"] - 1
+        return SStr(z3.Select(G["ops"], G["n"]))
+    ex.methods[("opstack", "pop")] = Model("list.pop on the operator stack", st_pop)
+
+    def st_append(I, st, v):
+        G = g(I)
+        G["ops"] = z3.Store(G["ops"], G["n"], v.z if isinstance(v, SStr) else z3.StringVal(v))
+        G["n"] = G["n"] + 1
+        G["pushed"].append(v)
+    ex.methods[("opstack", "append")] = Model("list.append on the operator stack", st_append)
+
+    def st_getitem(I, st, idx):
+        G = g(I)
+        k = I._int_term(idx)
+        k = z3.If(k < 0, k + G["n"], k)
+        if not I.decide(z3.And(k >= 0, k < G["n"])):
+            I.throw("IndexError", "list index out of range")
+        I.hint("index", z3.simplify(k))
+        return SStr(z3.Select(G["ops"], z3.simplify(k)))
+    ex.getitem_hooks["opstack"] = st_getitem
+
+    def output_operator(I, self, op):
+        G = g(I)
+        G["out"] = z3.Store(G["out"], G["m"], op.z if isinstance(op, SStr) else z3.StringVal(op))
+        G["m"] = G["m"] + 1
+    mod = source.module(EXPRPY)
+    ecls = ClassRef(mod.defs["Expr"], mod)
+    fn = ex.function(EXPRPY, "Expr._process_expression_elements")
+    ex.contracts[f"{EXPRPY}:Expr.output_operator"] = output_operator
+    ex.inline.add(f"{EXPRPY}:Expr._convert_to_unary_operator")
+    # the ')' branch cannot be taken for an operator token (precondition of this harness)
+    ex.contracts[f"{EXPRPY}:Expr._handle_closing_parenthesis"] = lambda I, self, st: I.oblige("closing_branch_not_taken_for_an_operator", z3.BoolVal(False))
+
+    def inv(I, v, it):
+        G = g(I)
+        n, n0, m, ops, out = G["n"], G["n0"], G["m"], G["ops0"], G["out"]
+        p = I._int_term(v["prec"])
+        I.hint("index", n)
+        I.hint("index", n - 1)
+        I.hint("index", n0 - 1 - m)
+        I.hint("index", m)
+        u = v["is_unary"]
+        u = u.z if hasattr(u, "z") else z3.BoolVal(bool(u))
+        return [("stack_shrinks_only", z3.And(n >= 0, n <= n0)),
+                ("one_output_per_removed_operator", m == n0 - n),
+                ("stack_cells_never_written", G["ops"] == ops),
+                ("a_prefix_operator_pops_nothing", z3.Implies(u, z3.And(n == n0, m == 0))),
+                ("removed_operators_bind_at_least_as_tight", Forall(["index"], lambda j: z3.Implies(z3.And(j >= n, j < n0), prec_of(z3.Select(ops, j)) >= p))),
+                ("outputs_are_the_removed_operators_top_first", Forall(["index"], lambda j: z3.Implies(z3.And(j >= 0, j < m), z3.Select(out, j) == z3.Select(ops, n0 - 1 - j))))]
+
+    def havoc(I, v, it):
+        G = g(I)
+        G["n"] = I.fresh("n", Z)
+        G["m"] = I.fresh("m", Z)
+        G["out"] = I.fresh("out", AS)
+    ex.loopspecs[(fn.ident, 0)] = LoopSpec(inv, lambda I, v, it: g(I)["n"] + 1, havoc, keep=("operator", "prec", "is_unary"))
+
+    def harness(I):
+        G = g(I)
+        G["n"] = G["n0"] = I.fresh("n0", Z)
+        G["ops"] = G["ops0"] = I.fresh("ops0", AS)
+        G["m"] = z3.IntVal(0)
+        G["out"] = I.fresh("out0", AS)
+        G["pushed"] = []
+        I.inputs["n0"] = G["n0"]
+        I.assume(G["n0"] >= 0)
+        ops0, n0 = G["ops0"], G["n0"]
+        # precondition: the stack holds operators of the table only ('(' included)
+        I.assume(Forall(["index"], lambda j: z3.Implies(z3.And(j >= 0, j < n0), member(z3.Select(ops0, j))), "stack_holds_known_operators"))
+        op = I.fresh("operator", S)
+        I.inputs["operator"] = op
+        I.assume(z3.And(member(op), op != z3.StringVal("("), op != z3.StringVal(")"),
+                        op != z3.StringVal("<UMinus>"), op != z3.StringVal("<UPlus>")))     # what the tokenizer can deliver as an operator
+        k = I.choose(3, "what_came_before")
+        last_operator = [True, ")", SStr(I.fresh("last_operator", S))][k]
+        last_operand = False if k != 1 else I.fresh_bool("last_operand")
+        out = ex.run_function(I, fn, [PObj(ecls, {"operand_stack": []}), "", SStr(op), PObj("opstack", {}), last_operand, last_operator])
+        I.oblige("no_raise" if out.returned else f"no_raise[{out.exc!r}]", out.returned)
+        if not out.returned:
+            return
+        n, m, ops = G["n"], G["m"], G["ops0"]
+        pushed = G["pushed"]
+        I.oblige("exactly_one_operator_pushed", len(pushed) == 1)
+        if len(pushed) != 1:
+            return
+        pz = pushed[0].z if isinstance(pushed[0], SStr) else z3.StringVal(pushed[0])
+        unary_after = z3.Or(*[pz == z3.StringVal(u) for u in UNARY])
+        p = prec_of(pz)
+        base = n - 1                      # stack below the pushed operator
+        I.hint("index", base)
+        I.hint("index", base - 1)
+        I.oblige("a_prefix_operator_pops_nothing", z3.Implies(unary_after, z3.And(m == 0, base == n0)))
+        I.oblige("popped_exactly_the_top_segment", m == n0 - base)
+        I.oblige("every_popped_operator_binds_at_least_as_tight", Forall(["index"], lambda j: z3.Implies(z3.And(j >= base, j < n0), prec_of(z3.Select(ops, j)) >= p)))
+        I.oblige("the_segment_is_maximal", z3.Implies(z3.And(z3.Not(unary_after), base > 0), prec_of(z3.Select(ops, base - 1)) < p))
+        I.oblige("outputs_top_first", Forall(["index"], lambda j: z3.Implies(z3.And(j >= 0, j < m), z3.Select(G["out"], j) == z3.Select(ops, n0 - 1 - j))))
+        I.oblige("stack_below_untouched", Forall(["index"], lambda j: z3.Implies(z3.And(j >= 0, j < base), z3.Select(G["ops"], j) == z3.Select(ops, j))))
+        # minus / plus become prefix operators exactly when no operand (or ')') precedes them
+        lo_truthy = True if k in (0, 1) else None
+        if k == 0:
+            I.oblige("sign_after_an_operator_is_a_prefix_operator", z3.And(z3.Implies(op == z3.StringVal("-"), pz == z3.StringVal("<UMinus>")),
+                                                                        z3.Implies(op == z3.StringVal("+"), pz == z3.StringVal("<UPlus>"))))
+        if k == 1:
+            I.oblige("sign_after_a_closing_parenthesis_is_binary", pz == op)
+    chk.prove("expr.Expr._process_expression_elements[operator]", harness, ex, targets=[fn], replay=replay_expr)
